@@ -32,6 +32,23 @@ class NotSupported(Exception):
     pass
 
 
+def untraced(fn: Callable[[], Any]) -> Any:
+    """Run SQLAlchemy's own statement introspection outside CrossHair tracing (its compiler builds
+    sets of column objects, whose == is overloaded, which CrossHair's patched containers cannot hold).
+    Only statement STRUCTURE is computed here, never data."""
+    try:
+        from crosshair.tracers import NoTracing, is_tracing
+    except Exception:  # pragma: no cover
+        return fn()
+    if is_tracing():
+        with NoTracing():
+            return fn()
+    return fn()
+
+
+STRING_CODES: dict[str, int] = {}
+
+
 # --------------------------------------------------------------------------
 # algebras
 # --------------------------------------------------------------------------
@@ -73,7 +90,12 @@ class Z3Alg:
             return z3.BoolVal(v)
         if isinstance(v, int):
             return z3.IntVal(v)
-        raise NotSupported(f"constant {v!r} in z3 mode (strings are coded as ints)")
+        if isinstance(v, str):
+            # strings are only compared for equality / order of codes: code them as ints (stable per process)
+            if v not in STRING_CODES:
+                STRING_CODES[v] = 1000 + len(STRING_CODES)
+            return z3.IntVal(STRING_CODES[v])
+        raise NotSupported(f"constant {v!r} in z3 mode")
 
     @staticmethod
     def cmp(op: Any, a: Any, b: Any) -> Any:
@@ -212,7 +234,7 @@ class Evaluator:
                 inner = inner.element
             if isinstance(inner, Select):
                 rel = self.select(inner, {k: v for k, v in outer.items() if k != "__scope__"})
-                names = [c.name for c in f.c]  # exported column names, positionally aligned with the inner SELECT
+                names = untraced(lambda: [c.name for c in f.c])  # exported column names, positionally aligned with the inner SELECT
                 return [(g, {(id(f), n): v for n, v in zip(names, row.values())}) for g, row in rel]
         if isinstance(f, (Table, TableClause)):
             if f.name not in self.db.tables:
@@ -322,7 +344,7 @@ class Evaluator:
     def select(self, sel: Select, outer: dict[Any, Any], proj: bool = True,
                ordered: bool = False) -> list[tuple[Any, dict[str, tuple[Any, Any]]]]:
         A = self.alg
-        froms = list(sel.get_final_froms())
+        froms = untraced(lambda: list(sel.get_final_froms()))
         scope = outer.get("__scope__", [])
 
         def leaves(f: Any) -> list[Any]:
@@ -342,7 +364,7 @@ class Evaluator:
                 if A.maybe(g2):
                     rel2.append((g2, env))
             rel = rel2
-        cols = list(sel.selected_columns)
+        cols = untraced(lambda: list(sel.selected_columns))
 
         def is_count(c: Any) -> bool:
             c2 = c
